@@ -14,6 +14,7 @@ import pandas as pd
 from rv.core import vio
 from rv.instrument import patch
 from rv.oracles import wgs84 as W
+from rv.workloads import forms
 
 ID = 'C06'
 RULE = ('seeded random (pva, lever arm, body rates present/absent, measurement value near/far, altitude mode) for '
@@ -22,7 +23,7 @@ RULE = ('seeded random (pva, lever arm, body rates present/absent, measurement v
         'tests use none of these with a checked Jacobian); distinct = generator parameters')
 ASSUMPTIONS = ['Jacobian reference = Richardson central differences of the real residual through the real correct_pva; '
                'steps 10 m / 1 m/s / 1e-4 rad', 'position residual compared to first order: bound 4|z|^2 (1+tan lat)/R']
-REQUIRED_OBS = ['history_independence_checked', 'residual_checked', 'jacobian_checked', 'noise_checked', 'absent_time_checked', 'sim_zero_residual',
+REQUIRED_OBS = ['lever_with_zero_components', 'data_columns_permuted', 'simulated_fixes_at_antimeridian', 'history_independence_checked', 'residual_checked', 'jacobian_checked', 'noise_checked', 'absent_time_checked', 'sim_zero_residual',
                 'sim_injected_error', 'translate_consistency', 'lever_and_rates_cases']
 REQUIRED_CLASSES = {'all': ['Position', 'NedVelocity', 'BodyVelocity', 'simulators']}
 LLA = ['lat', 'lon', 'alt']
@@ -64,7 +65,8 @@ def own_residual(meas, time, pva, wa):
     name = type(meas).__name__
     C = euler_mat(pva[RPH].values.astype(float))
     row = meas.data.loc[time]
-    lever = getattr(meas, 'imu_to_antenna_b', None)
+    # the lever arm the harness gave to the constructor (not what the object made of it)
+    lever = STATE['case_lever'] if 'case_lever' in STATE else getattr(meas, 'imu_to_antenna_b', None)
     if name == 'Position':
         rn, _, rp = W.radii(0.5 * (pva.lat + row.lat), 0.5 * (pva.alt + row.alt))
         z = np.array([(pva.lat - row.lat) * W.D2R * rn, (pva.lon - row.lon) * W.D2R * rp, -(pva.alt - row.alt)])
@@ -207,8 +209,13 @@ def run_case(case):
         if cls in ('Position', 'NedVelocity', 'BodyVelocity'):
             with_rates = bool(rng.integers(0, 2))
             pva = gen_pva(rng, with_rates)
-            lever_kind = rng.choice(['none', 'zero', 'random'], p=[0.25, 0.15, 0.6])
+            lever_kind = rng.choice(['none', 'zero', 'random', 'axis'], p=[0.2, 0.1, 0.45, 0.25])
             lever = None if lever_kind == 'none' else np.zeros(3) if lever_kind == 'zero' else rng.uniform(-5, 5, 3)
+            if lever_kind == 'axis':
+                # antenna straight ahead / above: components that are exactly zero (e.g. [0.645, 0, 0])
+                lever[rng.permutation(3)[:int(rng.integers(1, 3))]] = 0.0
+                bump('lever_with_zero_components')
+            STATE['case_lever'] = lever
             sd = float(10 ** rng.uniform(-2, 1))
             STATE['case_sd'] = sd
             t = float(pva.name)
@@ -221,16 +228,26 @@ def run_case(case):
                                     index=times, columns=LLA)
                 if rng.random() < 0.3:
                     data['extra'] = 1.0
+                if rng.random() < 0.3:
+                    data = forms.shuffle_table(data, rng, extra=False)
+                    bump('data_columns_permuted')
                 meas = measurements.Position(data, sd, lever)
             elif cls == 'NedVelocity':
                 data = pd.DataFrame(pva[VEL].values.astype(float) + rng.standard_normal((len(times), 3)) * (30 if far else 0.3),
                                     index=times, columns=VEL)
+                if rng.random() < 0.4:
+                    data = forms.shuffle_table(data, rng, extra=bool(rng.integers(0, 2)))
+                    bump('data_columns_permuted')
                 meas = measurements.NedVelocity(data, sd, lever)
             else:
                 data = pd.DataFrame(C.T @ pva[VEL].values.astype(float) + rng.standard_normal((len(times), 3)) * (30 if far else 0.3),
                                     index=times, columns=BV)
+                if rng.random() < 0.4:
+                    data = forms.shuffle_table(data, rng, extra=bool(rng.integers(0, 2)))
+                    bump('data_columns_permuted')
                 meas = measurements.BodyVelocity(data, sd)
                 lever = None
+                STATE['case_lever'] = None
             if lever is not None and np.any(lever != 0) and with_rates:
                 bump('lever_and_rates_cases')
             ret = meas.compute_matrices(t, pva, em)
@@ -245,9 +262,15 @@ def run_case(case):
         else:
             # ---- simulators at the true state (residual monitors only; the Jacobian is decided above) ----
             STATE['jacobian'] = False
+            STATE['case_lever'] = None
             n = 6
             tt = np.arange(n) * 1.0
             rows = [gen_pva(rng, True) for _ in range(n)]
+            if rng.random() < 0.3:
+                # a vehicle within metres of the antimeridian: the simulated fixes scatter across it
+                for r_ in rows:
+                    r_['lon'] = float(rng.choice([-1.0, 1.0])) * (180.0 - float(rng.uniform(0, 3e-5)))
+                bump('simulated_fixes_at_antimeridian')
             traj = pd.DataFrame(rows, index=pd.Index(tt, name='time'))
             sd = float(10 ** rng.uniform(-1, 0.7))
             STATE['case_sd'] = sd
@@ -281,6 +304,10 @@ def run_case(case):
                                        f'expected -e (diff {np.abs(z1 + e).max():.3e} > {tol:.3e})'))
             # ---- lever arm: measurement data taken at the antenna (translate_trajectory) --------------------
             lever = rng.uniform(-5, 5, 3)
+            if rng.random() < 0.4:
+                lever[rng.permutation(3)[:int(rng.integers(1, 3))]] = 0.0
+                bump('lever_with_zero_components')
+            STATE['case_lever'] = lever
             ant = transform.translate_trajectory(traj, lever)
             mp_ = measurements.Position(ant[LLA], sd, lever)
             mv_ = measurements.NedVelocity(ant[VEL], sd, lever)
